@@ -94,7 +94,7 @@ MWEIGHTS = {
     'blacklist': 2, 'group': 3, 'del_group': 1, 'clock': 6, 'cell_event': 1,
     'integrity': 2, 'restart': 0, 'noop': 1, 'blackout_server': 1, 'partition_schedule': 1, 'bucket_new': 1,
     'stale_finished': 1, 'swap_apps': 1, 'retention_update': 1, 'bucket_remove': 0, 'server_delete_event_lost': 1,
-    'servers_reload_all': 1, 'bucket_reparent': 0, 'stale_presence': 2, 'maintenance': 2, 'group_squeeze': 3,       # bucket_reparent: C11 only (its profile)
+    'servers_reload_all': 1, 'bucket_reparent': 0, 'stale_presence': 2, 'maintenance': 2, 'group_squeeze': 3, 'blackout_then_redeclare': 2, 'agent_reregisters': 0, 'server_stub': 1,       # bucket_reparent: C11 only (its profile)
 }
 
 
@@ -511,6 +511,51 @@ class MasterDriver:
         self.Z['blacklist'] = bl
         self.ops.append(('blacklist', bl))
 
+    def op_blackout_then_redeclare(self):
+        """Two operator commands in quick succession: every application with an instance on one server is blacked out,
+        then that server's record is re-declared (a capacity update) - both before the next cycle."""
+        hosting = sorted(s_ for s_ in self.Z['servers'] if s_ in self.node_clients and self.srv.children(self.z.path.placement(s_)))
+        if not hosting:
+            return
+        name = self.rng.choice(hosting)
+        bases = sorted({a.split('#')[0] for a in self.srv.children(self.z.path.placement(name))})
+        bl = sorted(set(self.Z['blacklist']) | set(bases))
+        self.zkutils.put(self.admin, self.z.BLACKEDOUT_APPS, bl)
+        self.api.create_event(self.admin, 0, 'apps_blacklist', None)
+        self.Z['blacklist'] = bl
+        self.ops.append(('blacklist', bl))
+        self.op_server_cap(name)
+        self.mon.count('applications_blacked_out_then_their_server_redeclared')
+
+    def op_agent_reregisters(self):
+        """A node agent restarts without a reboot: its presence goes and comes back, presence.register_server rewrites
+        the capacity in the server record (what the node measures now) and posts no event; up_since is unchanged."""
+        up = sorted(s_ for s_ in self.node_clients if s_ in self.Z['servers'])
+        if not up or getattr(self, 'stale_presence', None) or \
+                self.delivered.get(self.z.SERVER_PRESENCE) != self.srv.children(self.z.SERVER_PRESENCE):
+            return          # (only from a state in which the master knows the present listing)
+        name = self.rng.choice(up)
+        self.op_presence_down(name)
+        self.settle_delivery()          # the master learns that it is gone (a flap it never sees changes nothing for it)
+        zs = self.Z['servers'][name]
+        cap = [max(1, int(c * self.rng.choice([0.5, 0.5, 0.75, 1.0]))) for c in zs['cap']]
+        spelled = dict(memory='%dM' % cap[0], cpu='%d%%' % cap[1], disk='%dM' % cap[2])
+        zs['rec'].update(spelled)
+        zs['cap'] = cap
+        self.zkutils.update(self.admin, self.z.path.server(name), zs['rec'])
+        self.lost.pop(name, None)
+        self._presence_up(name)
+        self.settle_delivery()          # ... and that it is back (that is when it reads the record again)
+        self.ops.append(('agent_reregisters', name, spelled))
+        self.mon.count('agent_reregistered_with_new_capacity_same_boot_time')
+
+    def op_server_stub(self):
+        """A create_server that died after its first request: /servers/<name> exists with an empty payload, no event."""
+        name = 'stub%d' % self._next()
+        self.admin.ensure_path(self.z.path.server(name))
+        self.ops.append(('server_stub', name))
+        self.mon.count('server_record_with_empty_payload')
+
     def op_allocations(self, initial=False):
         rng = self.rng
         allocs = []
@@ -769,6 +814,12 @@ class MasterDriver:
             self.op_group(rng.choice(['g0', 'g1', 'g2']), rng.choice([0, 1, 2, 2, 3, 4, 6]))
         elif kind == 'group_squeeze':
             self.op_group_squeeze()
+        elif kind == 'blackout_then_redeclare':
+            self.op_blackout_then_redeclare()
+        elif kind == 'agent_reregisters':
+            self.op_agent_reregisters()
+        elif kind == 'server_stub' and not any(op[0] == 'server_stub' for op in self.ops):
+            self.op_server_stub()
         elif kind == 'del_group' and self.Z['groups']:
             self.op_del_group(rng.choice(sorted(self.Z['groups'])))
         elif kind == 'clock':
